@@ -91,19 +91,21 @@ def gen_case(rng, eol):
         if style == "indented" and doc.blocks and doc.blocks[-1]["kind"] == "indented" and doc.blocks[-1].get("end") == len(doc.lines):
             doc.add(["Then:", ""])
         text = "\n".join(ss) if rng.random() < 0.7 else "\n\n".join(ss)
-        lines, firstl, strip = gen_md.recipe_block_lines(rng, text, style, container)
+        extra = rng.choice([0, 0, 0, 2, 4, 1])      # recipe text indented more than the block requires
+        lines, firstl, strip = gen_md.recipe_block_lines(rng, text, style, container, extra)
         doc.blocks.append(dict(first_line=len(doc.lines) + firstl, prefix=strip, text=text, kind=style, group=g, container=container))
         doc.add(lines + [""])
         doc.blocks[-1]["end"] = len(doc.lines)
         if container == "list":
             doc.add(["<!-- end list -->", ""])
         if (g, b) == (gi, bi):
+            fault_extra = extra
             fault_block = doc.blocks[-1]
             off_line = text.split("\n").index(stmts[si])
             fault_line = fault_block["first_line"] + off_line + 1    # 1-based document line
             fault_text = stmts[si]
         first = False
-    return dict(document=doc.text(eol), kind=kind, line=fault_line, column=col, snippet=fault_text, eol=eol, container=fault_block["container"], style=fault_block["kind"])
+    return dict(document=doc.text(eol), kind=kind, line=fault_line, column=col + fault_extra, snippet=" " * fault_extra + fault_text, eol=eol, container=fault_block["container"], style=fault_block["kind"])
 
 
 def run_case(c):
